@@ -9,7 +9,6 @@ import (
 	"bufio"
 	"context"
 	"encoding/base64"
-	"encoding/json"
 	"fmt"
 	"net"
 	"net/http"
@@ -17,6 +16,7 @@ import (
 	"os"
 	"path/filepath"
 	"sort"
+	"strconv"
 	"strings"
 	"sync/atomic"
 	"time"
@@ -204,21 +204,22 @@ var seededIDs = []string{"c11-qa", "c11-qb", "c11-la", "c11-lb", "c11-da", "c11-
 type world struct {
 	spec    cfgSpec
 	decided bool // spec.Refused is authoritative (replay/recheck, or after the first boot)
-	slot   int
-	dir    string
-	ad     addrs
-	text   string
-	app    *app.VerifApp
-	store  *queue.MemoryStore
-	conn   *grpc.ClientConn
-	cli    pb.WorkerServiceClient
-	base   string // dump right after seeding
-	lease  map[string]string
-	dirty  bool
-	boots  int
-	closed bool
+	slot    int
+	dir     string
+	ad      addrs
+	text    string
+	app     *app.VerifApp
+	store   *queue.MemoryStore
+	conn    *grpc.ClientConn
+	cli     pb.WorkerServiceClient
+	base    string // dump right after seeding
+	lease   map[string]string
+	dirty   bool
+	boots   int
+	closed  bool
 
 	primersPassed, primersRefused int
+	buf                           []byte // scratch of dump/changed
 }
 
 func newWorld(spec cfgSpec, slot int, dir string) *world {
@@ -341,40 +342,90 @@ func (w *world) seed() error {
 // management labels of the running configuration. The store has no retention
 // and a fixed clock, so reading has no side effects.
 func (w *world) dump() string {
-	var b strings.Builder
+	w.buf = w.dumpInto(w.buf[:0])
+	return string(w.buf)
+}
+
+// changed: the state differs from the dump taken right after seeding (no allocation on the common path).
+func (w *world) changed() bool {
+	w.buf = w.dumpInto(w.buf[:0])
+	return string(w.buf) != w.base
+}
+
+func (w *world) dumpInto(b []byte) []byte {
 	ml, err := w.store.ListMessages(queue.MessageListRequest{Order: queue.MessageOrderAsc, Limit: 1000, IncludePayload: true, IncludeHeaders: true, IncludeTrace: true})
 	if err != nil {
-		return "ERR " + err.Error()
+		return append(b, "ERR "+err.Error()...)
 	}
 	items := ml.Items
 	sort.Slice(items, func(i, j int) bool { return items[i].ID < items[j].ID })
+	num := func(label string, v int64) {
+		b = append(b, label...)
+		b = strconv.AppendInt(b, v, 10)
+	}
+	str := func(label, v string) {
+		b = append(b, label...)
+		b = strconv.AppendInt(b, int64(len(v)), 10) // length-prefixed: no quoting needed, still unambiguous
+		b = append(b, ':')
+		b = append(b, v...)
+	}
 	for _, e := range items {
-		hj, _ := json.Marshal(e.Headers)
-		fmt.Fprintf(&b, "%s|%s|%s|%s|att=%d|next=%d|recv=%d|lease=%s|until=%d|dead=%q|p=%q|h=%s\n", e.ID, e.Route, e.Target, e.State, e.Attempt,
-			e.NextRunAt.UnixNano(), e.ReceivedAt.UnixNano(), e.LeaseID, e.LeaseUntil.UnixNano(), e.DeadReason, e.Payload, hj)
+		str("", e.ID)
+		str("|", e.Route)
+		str("|", e.Target)
+		str("|", string(e.State))
+		num("|att=", int64(e.Attempt))
+		num("|next=", e.NextRunAt.UnixNano())
+		num("|recv=", e.ReceivedAt.UnixNano())
+		str("|lease=", e.LeaseID)
+		num("|until=", e.LeaseUntil.UnixNano())
+		str("|dead=", e.DeadReason)
+		b = append(b, "|p="...)
+		b = strconv.AppendInt(b, int64(len(e.Payload)), 10)
+		b = append(b, ':')
+		b = append(b, e.Payload...)
+		hk := make([]string, 0, len(e.Headers))
+		for k := range e.Headers {
+			hk = append(hk, k)
+		}
+		sort.Strings(hk)
+		for _, k := range hk {
+			str("|h:", k)
+			str("=", e.Headers[k])
+		}
+		b = append(b, '\n')
 	}
 	stt, err := w.store.Stats()
 	if err != nil {
-		return "ERR " + err.Error()
+		return append(b, "ERR "+err.Error()...)
 	}
 	states := make([]string, 0, len(stt.ByState))
-	for s, n := range stt.ByState {
-		states = append(states, fmt.Sprintf("%s=%d", s, n))
+	for s := range stt.ByState {
+		states = append(states, string(s))
 	}
 	sort.Strings(states)
-	fmt.Fprintf(&b, "stats total=%d %v\n", stt.Total, states)
+	num("stats total=", int64(stt.Total))
+	for _, s := range states {
+		str(" ", s)
+		num("=", int64(stt.ByState[queue.State(s)]))
+	}
 	at, err := w.store.ListAttempts(queue.AttemptListRequest{Limit: 1000})
 	if err == nil {
-		fmt.Fprintf(&b, "attempts=%d\n", len(at.Items))
+		num("\nattempts=", int64(len(at.Items)))
 	}
 	if w.app != nil {
 		file, _ := os.ReadFile(w.app.ConfigPath)
-		fmt.Fprintf(&b, "config=%q\n", file)
+		b = append(b, "\nconfig="...)
+		b = strconv.AppendInt(b, int64(len(file)), 10)
+		b = append(b, ':')
+		b = append(b, file...)
 		for _, rt := range w.app.Running.Routes {
-			fmt.Fprintf(&b, "route %s app=%q ep=%q\n", rt.Path, rt.Application, rt.EndpointName)
+			str("\nroute ", rt.Path)
+			str(" app=", rt.Application)
+			str(" ep=", rt.EndpointName)
 		}
 	}
-	return b.String()
+	return b
 }
 
 // ---- requests --------------------------------------------------------------
@@ -443,8 +494,7 @@ func (w *world) doHTTP(h http.Handler, raw string) (outcome, *http.Request) {
 	o.Rejected = rec.Code == http.StatusUnauthorized
 	o.Success = rec.Code >= 200 && rec.Code < 300
 	o.Leak = leaks(rec.Body.String())
-	after := w.dump()
-	o.Changed = after != w.base
+	o.Changed = w.changed()
 	if o.Changed {
 		w.dirty = true
 	}
@@ -503,8 +553,7 @@ func (w *world) doGRPC(op, endpoint, leaseOf string, creds []string, batch bool)
 			o.Err = "transport: " + err.Error()
 		}
 	}
-	after := w.dump()
-	o.Changed = after != w.base
+	o.Changed = w.changed()
 	if o.Changed {
 		w.dirty = true
 	}
